@@ -49,6 +49,7 @@ type WorkerReport struct {
 	Violations  map[string]*FoundViol `json:"violations"`
 	Samples     []any                 `json:"samples"`
 	KeysFile    string                `json:"keys_file"`
+	HBKeysFile  string                `json:"hb_keys_file"`
 	CannotDecid string                `json:"cannot_decide,omitempty"`
 }
 
@@ -106,7 +107,7 @@ func cmdWorker(args []string) {
 	fs.Parse(args)
 	p := mustProp(*prop)
 	rep := &WorkerReport{Probes: map[string]int{}, ViolCount: map[string]int{}, Violations: map[string]*FoundViol{}}
-	var keys []uint64
+	var keys, hbKeys []uint64
 	minimised := 0
 	for i := *from; i < *to; i += *stride {
 		c := &Case{Seed: caseSeed(*seed, i)}
@@ -120,6 +121,9 @@ func cmdWorker(args []string) {
 		for _, s := range res.Sims {
 			rep.Steps += int64(s.Steps)
 			rep.SimRuns++
+			if res.NonTrivial {
+				hbKeys = append(hbKeys, res.ProgKey*0x9e3779b97f4a7c15^s.HBSig)
+			}
 		}
 		for k, v := range res.Probes {
 			rep.Probes[k] += v
@@ -156,6 +160,11 @@ func cmdWorker(args []string) {
 	binary.Write(&buf, binary.LittleEndian, keys)
 	os.WriteFile(kf, buf.Bytes(), 0o644)
 	rep.KeysFile = kf
+	hf := filepath.Join(*outDir, fmt.Sprintf("hbkeys-%d.bin", *wid))
+	var hbuf bytes.Buffer
+	binary.Write(&hbuf, binary.LittleEndian, hbKeys)
+	os.WriteFile(hf, hbuf.Bytes(), 0o644)
+	rep.HBKeysFile = hf
 	j, _ := json.Marshal(rep)
 	os.WriteFile(filepath.Join(*outDir, fmt.Sprintf("report-%d.json", *wid)), j, 0o644)
 }
@@ -498,7 +507,7 @@ func cmdRun(args []string) {
 	}
 	wg.Wait()
 	total := &WorkerReport{Probes: map[string]int{}, ViolCount: map[string]int{}, Violations: map[string]*FoundViol{}}
-	var allKeys []uint64
+	var allKeys, allHB []uint64
 	exit2 := false
 	for i := 0; i < w; i++ {
 		if fails[i] != "" {
@@ -547,6 +556,10 @@ func cmdRun(args []string) {
 		ks := make([]uint64, len(kb)/8)
 		binary.Read(bytes.NewReader(kb), binary.LittleEndian, ks)
 		allKeys = append(allKeys, ks...)
+		hb, _ := os.ReadFile(r.HBKeysFile)
+		hs := make([]uint64, len(hb)/8)
+		binary.Read(bytes.NewReader(hb), binary.LittleEndian, hs)
+		allHB = append(allHB, hs...)
 	}
 	if exit2 {
 		os.Exit(2)
@@ -556,6 +569,13 @@ func cmdRun(args []string) {
 	for i, k := range allKeys {
 		if i == 0 || k != allKeys[i-1] {
 			distinctKeys++
+		}
+	}
+	sort.Slice(allHB, func(i, j int) bool { return allHB[i] < allHB[j] })
+	distinctHB := 0
+	for i, k := range allHB {
+		if i == 0 || k != allHB[i-1] {
+			distinctHB++
 		}
 	}
 	// known findings
@@ -613,7 +633,7 @@ func cmdRun(args []string) {
 	}
 	wall := time.Since(start).Seconds()
 	if *evidence != "" {
-		writeEvidence(p, *evidence, *tier, *seed, total, distinctKeys, wall, nviol, knownMatched, *instr, w)
+		writeEvidence(p, *evidence, *tier, *seed, total, distinctKeys, distinctHB, wall, nviol, knownMatched, *instr, w)
 	}
 	fmt.Printf("%s %s: cases=%d nontrivial=%d distinct=%d sim_runs=%d steps=%d wall=%.1fs violations=%d known=%d\n",
 		*prop, *tier, total.Cases, total.NonTrivial, distinctKeys, total.SimRuns, total.Steps, wall, nviol, len(knownMatched))
@@ -622,7 +642,7 @@ func cmdRun(args []string) {
 	}
 }
 
-func writeEvidence(p Property, path, tier string, seed uint64, t *WorkerReport, distinct int, wall float64, nviol int, known []string, instrStats string, workers int) {
+func writeEvidence(p Property, path, tier string, seed uint64, t *WorkerReport, distinct int, distinctHB int, wall float64, nviol int, known []string, instrStats string, workers int) {
 	meta := p.Meta()
 	faults := map[string]int{}
 	probes := map[string]int{}
@@ -653,25 +673,27 @@ func writeEvidence(p Property, path, tier string, seed uint64, t *WorkerReport, 
 		stepsPerRun = float64(t.Steps) / float64(t.SimRuns)
 	}
 	cov := map[string]any{
-		"evaluations":            t.Cases,
-		"distinct_nontrivial":    distinct,
-		"rule":                   meta.Rule,
-		"samples":                t.Samples,
-		"simulated_runs":         t.SimRuns,
-		"cases_per_hour":         int64(perHour),
-		"seeds_per_hour":         int64(perHour),
-		"simulated_time":         fmt.Sprintf("%d scheduler steps in total (the system has no clock; simulated time is the logical step counter), %.1f per simulated run", t.Steps, stepsPerRun),
-		"simulated_steps_total":  t.Steps,
-		"fault_kinds_fired":      faults,
-		"probes":                 probes,
-		"distinct_measure":       "distinct (program, schedule-trace) pairs among non-trivial cases; a trace id is the FNV-1a hash of the sequence of scheduling decisions (task, operation, object ordinal)",
-		"real_components":        meta.Real,
-		"stub_components":        meta.Stub,
-		"instrumentation":        instr,
-		"worker_processes":       workers,
-		"known_findings_matched": known,
-		"exhaustive":             false,
-		"nontrivial_cases":       t.NonTrivial,
+		"evaluations":                        t.Cases,
+		"distinct_nontrivial":                distinct,
+		"rule":                               meta.Rule,
+		"samples":                            t.Samples,
+		"simulated_runs":                     t.SimRuns,
+		"cases_per_hour":                     int64(perHour),
+		"seeds_per_hour":                     int64(perHour),
+		"simulated_time":                     fmt.Sprintf("%d scheduler steps in total (the system has no clock; simulated time is the logical step counter), %.1f per simulated run", t.Steps, stepsPerRun),
+		"simulated_steps_total":              t.Steps,
+		"fault_kinds_fired":                  faults,
+		"probes":                             probes,
+		"distinct_happens_before_signatures": distinctHB,
+		"distinct_hb_measure":                "distinct (program, happens-before signature) pairs over all simulated runs of non-trivial cases; the signature hashes, per synchronisation object, the order in which tasks operated on it - schedules that differ only in the order of independent operations share one signature",
+		"distinct_measure":                   "distinct (program, schedule-trace) pairs among non-trivial cases; a trace id is the FNV-1a hash of the sequence of scheduling decisions (task, operation, object ordinal)",
+		"real_components":                    meta.Real,
+		"stub_components":                    meta.Stub,
+		"instrumentation":                    instr,
+		"worker_processes":                   workers,
+		"known_findings_matched":             known,
+		"exhaustive":                         false,
+		"nontrivial_cases":                   t.NonTrivial,
 	}
 	ev := map[string]any{
 		"property_id": p.ID(),
